@@ -9,6 +9,12 @@ package hash
 //               gadd|gaddr|gaddw <node t:/p:> …   the same operation through a gated Stringer (see c15Gate)
 //               storm <readers> <gets> <key,…> <op_arg_arg;op_arg;…>   free-running readers against a writer
 //               repr <v,v,…>   lang.Repr of every value (hex), no ring involved
+//               pget <text> <kind>             Get with a Stringer key whose String() does not return normally
+//               padd|paddr|paddw|premove <t:/p: node> [arg] <nth> <kind>   the operation with a Stringer node whose
+//                                              nth String() call made while the lock is free does not return:
+//                                              kind err = panic(error) str = panic(string) rt = runtime error
+//                                              (nil map write) exit = runtime.Goexit (the op runs in its own goroutine)
+//                                              => P=<what the caller recovered> locked=<0|1> + the usual observation
 // node / key:   <kind>:<text of the VALUE>  (never computed through lang.Repr: the model computes the repr itself)
 //               s=string i=int a=int8 h=int16 w=int32 j=int64 n=uint c=uint8 k=uint16 m=uint32 u=uint64 o=bool
 //               e=error (value receiver) x=errors.New(text) q=error+Stringer t=fmt.Stringer (struct) p=*Stringer
@@ -23,6 +29,7 @@ import (
 	"errors"
 	"fmt"
 	"hash/fnv"
+	"runtime"
 	"sort"
 	"strconv"
 	"strings"
@@ -42,10 +49,29 @@ type c15Gate struct {
 	h     *ConsistentHash
 	sig   chan struct{}
 	cont  chan struct{}
+	// fault mode (sig == nil): the nth String() call made while the lock is free does not return (nth == 0: the next
+	// call, wherever it is made — used for lookup keys, whose String() runs under the read lock)
+	nth  int
+	kind string
 }
 
 func (g *c15Gate) hit() {
 	if g == nil || !g.armed.Load() {
+		return
+	}
+	if g.sig == nil {
+		if g.nth > 0 {
+			if !g.h.lock.TryLock() {
+				return
+			}
+			g.h.lock.Unlock()
+			g.nth--
+			if g.nth > 0 {
+				return
+			}
+		}
+		g.armed.Store(false)
+		c15Fault(g.kind)
 		return
 	}
 	if g.h.lock.TryLock() {
@@ -53,6 +79,53 @@ func (g *c15Gate) hit() {
 		g.sig <- struct{}{}
 		<-g.cont
 	}
+}
+
+var c15ErrBoom = errors.New("boom")
+
+// c15Fault: the ways a user-supplied String() can fail to return
+func c15Fault(kind string) {
+	switch kind {
+	case "err":
+		panic(c15ErrBoom)
+	case "str":
+		panic("boom")
+	case "rt":
+		var m map[string]int
+		m["x"] = 1 // runtime error: assignment to entry in nil map
+	case "exit":
+		runtime.Goexit()
+	}
+	panic("verif: bad fault kind " + kind)
+}
+
+// c15Faulty runs f in its own goroutine and reports how it ended: "ok", "err:<text>" (panic with an error value),
+// "str:<text>" (panic with another value), "rt" (runtime.Error), "exit" (runtime.Goexit)
+func c15Faulty(f func()) string {
+	res := make(chan string, 1)
+	go func() {
+		normal := false
+		defer func() {
+			p := recover()
+			switch x := p.(type) {
+			case nil:
+				if normal {
+					res <- "ok"
+				} else {
+					res <- "exit"
+				}
+			case runtime.Error:
+				res <- "rt"
+			case error:
+				res <- "err:" + x.Error()
+			default:
+				res <- fmt.Sprintf("str:%v", p)
+			}
+		}()
+		f()
+		normal = true
+	}()
+	return <-res
 }
 
 type c15Err struct{ s string }
@@ -377,6 +450,10 @@ func c15Fixed() []verifh.Section {
 			"add f:NaN", "add f:-Inf", "add y:", "add z:", "add q:boom", "add x:boom", "add d:255", "remove r:255", "get i:3"}},
 		{Cfg: odd, Ops: []string{"add m:4294967295", "add w:-1", "add k:65535", "add h:-1", "add f:+Inf", "add b:-1", "remove s:-1",
 			"addw n:18446744073709551615 50", "remove i:-1", "get q:boom", "get y:"}},
+		// a String() that does not return, every way, at both lock-free call sites and under the read lock of Get
+		{Cfg: cfg, Ops: []string{"add s:a", "padd t:node 1 err", "padd t:node 2 str", "add t:node", "paddw t:node 50 2 rt",
+			"add p:node1", "paddr p:node1 20 1 exit", "get i:7", "paddr p:node1 20 2 exit", "addw p:node1 30", "premove p:node1 1 err",
+			"pget k1 err", "pget k2 str", "pget k3 rt", "pget k4 exit", "padd t:a 2 err", "pget k5 err", "add s:node", "paddw p:node 0 2 str", "remove t:node", "get i:7"}},
 		// weight overflow on the default ring
 		{Cfg: cfg, Ops: []string{"addw s:a 92233720368547759", "addw s:b 184467440737095517", "addw s:c 9223372036854775807", "addw s:d 200"}},
 	}
@@ -506,18 +583,33 @@ func c15Probes(r *verifh.Rng, nprobe int) []string {
 	return probes
 }
 
-func c15Cfg(r *verifh.Rng) string {
+// c15Cfg returns the section configuration and the replica count the ring will really have (lower clamp applied)
+func c15Cfg(r *verifh.Rng) (string, int) {
+	eff := func(n int) int {
+		if n < 100 {
+			return 100
+		}
+		return n
+	}
 	switch x := r.Intn(10); {
 	case x < 3:
-		return "ctor=default hash=murmur mod=0 replicas=100"
+		return "ctor=default hash=murmur mod=0 replicas=100", 100
 	case x < 5:
-		return fmt.Sprintf("ctor=custom hash=murmur mod=0 replicas=%d", r.Pick(0, 100, 101, 120, 150, -7, 99))
+		n := r.Pick(0, 100, 101, 120, 150, -7, 99)
+		return fmt.Sprintf("ctor=custom hash=murmur mod=0 replicas=%d", n), eff(n)
 	case x < 7:
-		return fmt.Sprintf("ctor=custom hash=fnv mod=0 replicas=%d", r.Pick(0, 100, 101, 128, 130, 160))
+		n := r.Pick(0, 100, 101, 128, 130, 160)
+		return fmt.Sprintf("ctor=custom hash=fnv mod=0 replicas=%d", n), eff(n)
 	default:
-		return fmt.Sprintf("ctor=custom hash=coll mod=%d replicas=%d", r.Pick(7, 64, 256, 1024, 4096, 65536), r.Pick(0, 100, 110, 128))
+		n := r.Pick(0, 100, 110, 128)
+		return fmt.Sprintf("ctor=custom hash=coll mod=%d replicas=%d", r.Pick(7, 64, 256, 1024, 4096, 65536), n), eff(n)
 	}
 }
+
+// c15Runaway: would `h.replicas * weight / TopWeight` (Go int, wrapping) be a replica count that only the upper clamp of
+// AddWithReplicas keeps from looping for hours? Such weights are exercised by TestVerifC15Big only, so that a tree
+// without the clamp still gives the main harnesses a complete trace (and a replay) instead of a time-out.
+func c15Runaway(replicas, weight int) bool { return replicas*weight/100 > 1000000 }
 
 func c15Pop(r *verifh.Rng) []string {
 	// a small population, biased to names whose virtual-node labels coincide ("n"+"10" = "n1"+"0")
@@ -535,11 +627,36 @@ func c15Pop(r *verifh.Rng) []string {
 }
 
 // c15Ops generates nops operations over pop; gated variants for Stringer nodes.
-func c15Ops(r *verifh.Rng, pop []string, nops int, present *[]string, sep string, gates bool) []string {
+func c15Ops(r *verifh.Rng, pop []string, nops int, present *[]string, sep string, gates bool, R int) []string {
 	var ops []string
 	for j := 0; j < nops; j++ {
 		n := pop[r.Intn(len(pop))]
 		x := r.Intn(100)
+		if gates && sep == " " && r.Chance(1, 12) {
+			// a user-supplied String() that does not return: lookup key (under the read lock) or node (lock free)
+			kind := r.PickS("err", "str", "rt", "exit")
+			if r.Chance(1, 3) {
+				ops = append(ops, fmt.Sprintf("pget k%d %s", r.Intn(1000), kind))
+				continue
+			}
+			if n[0] != 't' && n[0] != 'p' {
+				// a Stringer whose repr coincides with (or is a label neighbour of) common population members
+				n = r.PickS("t:node", "p:node1", "t:n1", "p:n", "t:10.0.0.7:6379", "p:1", "t:11", "p:cache")
+			}
+			nth := r.Range(1, 2)
+			switch r.Intn(4) {
+			case 0:
+				ops = append(ops, fmt.Sprintf("padd %s %d %s", n, nth, kind))
+			case 1:
+				ops = append(ops, fmt.Sprintf("paddr %s %d %d %s", n, c15Replicas[r.Intn(len(c15Replicas))], nth, kind))
+			case 2:
+				ops = append(ops, fmt.Sprintf("paddw %s %d %d %s", n, r.Pick(0, 1, 50, 100, 150, -5), nth, kind))
+			default:
+				ops = append(ops, fmt.Sprintf("premove %s 1 %s", n, kind))
+			}
+			// whether the node is still a member afterwards depends on nth: leave `present` as it is
+			continue
+		}
 		if x >= 65 && x < 90 {
 			// removals mostly hit a node that was added before (by token; reprs may still coincide)
 			if len(*present) > 0 && r.Chance(4, 5) {
@@ -560,7 +677,11 @@ func c15Ops(r *verifh.Rng, pop []string, nops int, present *[]string, sep string
 		case x < 50:
 			ops = append(ops, fmt.Sprintf("%saddr%s%s%s%d", g, sep, n, sep, c15Replicas[r.Intn(len(c15Replicas))]))
 		case x < 65:
-			ops = append(ops, fmt.Sprintf("%saddw%s%s%s%d", g, sep, n, sep, c15Weights[r.Intn(len(c15Weights))]))
+			w := c15Weights[r.Intn(len(c15Weights))]
+			for c15Runaway(R, w) {
+				w = c15Weights[r.Intn(len(c15Weights))]
+			}
+			ops = append(ops, fmt.Sprintf("%saddw%s%s%s%d", g, sep, n, sep, w))
 		case x < 90 || sep != " ":
 			ops = append(ops, "remove"+sep+n)
 		default:
@@ -576,14 +697,14 @@ func c15Gen(r *verifh.Rng) []verifh.Section {
 	secs := c15Fixed()
 	nsec := verifh.Scale(80, 800)
 	for i := 0; i < nsec; i++ {
-		cfg := c15Cfg(r)
+		cfg, R := c15Cfg(r)
 		cfg += " probes=" + strings.Join(c15Probes(r, verifh.Scale(64, 96)), ",")
 		pop := c15Pop(r)
 		if r.Chance(1, 4) {
 			pop = c15Twins(r)
 		}
 		var present []string
-		ops := c15Ops(r, pop, r.Range(3, verifh.Scale(16, 36)), &present, " ", true)
+		ops := c15Ops(r, pop, r.Range(3, verifh.Scale(16, 36)), &present, " ", true, R)
 		if r.Chance(1, 3) {
 			ops = append([]string{c15ReprOp(r, pop)}, ops...)
 		}
@@ -600,7 +721,7 @@ func c15GenRace(r *verifh.Rng) []verifh.Section {
 	var secs []verifh.Section
 	nsec := verifh.Scale(14, 160)
 	for i := 0; i < nsec; i++ {
-		cfg := c15Cfg(r)
+		cfg, R := c15Cfg(r)
 		probes := c15Probes(r, 24)
 		cfg += " probes=" + strings.Join(probes, ",")
 		var pop []string
@@ -617,15 +738,15 @@ func c15GenRace(r *verifh.Rng) []verifh.Section {
 			pop = []string{"t:node"}
 		}
 		var present []string
-		ops := c15Ops(r, pop, r.Range(1, 4), &present, " ", true)
+		ops := c15Ops(r, pop, r.Range(1, 4), &present, " ", true, R)
 		for k := r.Range(1, 3); k > 0; k-- {
 			keys := make([]string, 0, 8)
 			for j := 0; j < 8; j++ {
 				keys = append(keys, probes[r.Intn(len(probes))])
 			}
-			prog := c15Ops(r, pop, r.Range(2, 8), &present, "_", false)
+			prog := c15Ops(r, pop, r.Range(2, 8), &present, "_", false, R)
 			ops = append(ops, fmt.Sprintf("storm %d %d %s %s", r.Range(2, 6), 40, strings.Join(keys, ","), strings.Join(prog, ";")))
-			ops = append(ops, c15Ops(r, pop, r.Range(0, 2), &present, " ", true)...)
+			ops = append(ops, c15Ops(r, pop, r.Range(0, 2), &present, " ", true, R)...)
 		}
 		secs = append(secs, verifh.Section{Cfg: cfg, Ops: ops})
 	}
@@ -798,7 +919,64 @@ func c15StartCfg(t *testing.T, cfg verifh.Cfg) (func(op []string) string, func()
 		nk, nr, nn, ck, rk := c15Digest(h)
 		return fmt.Sprintf("nk=%d nr=%d nn=%d ck=%d rk=%d g=%s f=%s", nk, nr, nn, ck, rk, strings.Join(g, ","), strings.Join(f, ","))
 	}
+	dead := false
+	lockState := func() int {
+		if h.lock.TryLock() {
+			h.lock.Unlock()
+			return 0
+		}
+		// the lock was not released: every later operation on this instance would block for ever
+		dead = true
+		return 1
+	}
 	step := func(op []string) string {
+		if dead {
+			return "dead"
+		}
+		if len(op) == 3 && op[0] == "pget" {
+			g := &c15Gate{h: h, nth: 0, kind: op[2]}
+			g.armed.Store(true)
+			out := "?"
+			res := c15Faulty(func() {
+				out = "-"
+				if v, ok := h.Get(c15Stringer{op[1], g}); ok {
+					out = c15Token(v)
+				}
+			})
+			g.armed.Store(false)
+			return fmt.Sprintf("P=%s locked=%d g=%s", res, lockState(), out)
+		}
+		if len(op) >= 4 && (op[0] == "padd" || op[0] == "paddr" || op[0] == "paddw" || op[0] == "premove") {
+			plain := append([]string{op[0][1:]}, op[1:len(op)-2]...)
+			if k := op[1][0]; k != 't' && k != 'p' {
+				return "bad-op"
+			}
+			nth := verifh.Atoi(op[len(op)-2])
+			if nth < 1 || nth > 2 {
+				return "bad-op"
+			}
+			g := &c15Gate{h: h, nth: nth, kind: op[len(op)-1]}
+			g.armed.Store(true)
+			ok := true
+			res := c15Faulty(func() { ok = c15ApplyGated(h, plain, g) })
+			g.armed.Store(false)
+			if !ok {
+				return "bad-op"
+			}
+			// the sequential twin and the membership follow what the caller saw: a completed operation, or one that
+			// ended in its first lock-free String() (nothing happened) or in its second (Remove ran, the insertion did not)
+			switch {
+			case res == "ok":
+				if !c15Apply(h2, plain) {
+					return "bad-op"
+				}
+				track(plain)
+			case nth == 2 && plain[0] != "remove":
+				h2.Remove(c15Value(plain[1]))
+				track([]string{"remove", plain[1]})
+			}
+			return fmt.Sprintf("P=%s locked=%d %s", res, lockState(), final())
+		}
 		if len(op) == 2 && op[0] == "get" {
 			return c15Get(h, c15Value(op[1]))
 		}
@@ -886,6 +1064,64 @@ func c15StartCfg(t *testing.T, cfg verifh.Cfg) (func(op []string) string, func()
 		return final()
 	}
 	return step, nil
+}
+
+// c15GenBig: replica counts and weights that only the upper clamp of AddWithReplicas keeps finite: weights whose
+// product h.replicas*weight wraps to a huge positive int, huge replica counts. Kept apart from the main harness so
+// that a tree that lost the clamp on one path times out HERE (30 s) and still gives a full trace there.
+func c15GenBig(r *verifh.Rng) []verifh.Section {
+	r = r.Fork()
+	r.Uint64()
+	r.Uint64()
+	r.Uint64()
+	var secs []verifh.Section
+	hugeR := []int{1 << 31, 1 << 40, 9223372036854775807, 1000001, 4611686018427387904}
+	for i := 0; i < verifh.Scale(12, 60); i++ {
+		cfg, R := c15Cfg(r)
+		cfg += " probes=" + strings.Join(c15Probes(r, 32), ",")
+		pop := c15Pop(r)
+		var big []int
+		for _, w := range c15Weights {
+			if c15Runaway(R, w) {
+				big = append(big, w)
+			}
+		}
+		// further weights of the class for this replica count: k*2^64/R + a positive remainder worth > 10^6 replicas
+		for j := 0; j < 4; j++ {
+			w := int(uint64(r.Range(1, 90))*(^uint64(0)/uint64(R)) + uint64(r.Range(1, 1<<40)))
+			if c15Runaway(R, w) {
+				big = append(big, w)
+			}
+			if c15Runaway(R, -w) {
+				big = append(big, -w)
+			}
+		}
+		big = append(big, 1000001, 9223372036854775807/R, 92233720368547758)
+		var present []string
+		ops := c15Ops(r, pop, r.Range(1, 4), &present, " ", false, R)
+		for j := r.Range(2, 6); j > 0; j-- {
+			n := pop[r.Intn(len(pop))]
+			switch r.Intn(4) {
+			case 0:
+				ops = append(ops, fmt.Sprintf("addr %s %d", n, hugeR[r.Intn(len(hugeR))]))
+			case 1:
+				ops = append(ops, "remove "+n)
+			default:
+				w := big[r.Intn(len(big))]
+				if !c15Runaway(R, w) && w <= 100 {
+					continue
+				}
+				ops = append(ops, fmt.Sprintf("addw %s %d", n, w))
+			}
+		}
+		ops = append(ops, "remove "+pop[0], fmt.Sprintf("get i:%d", r.Intn(1000)))
+		secs = append(secs, verifh.Section{Cfg: cfg, Ops: ops})
+	}
+	return secs
+}
+
+func TestVerifC15Big(t *testing.T) {
+	verifh.Run(t, verifh.Sections(c15GenBig), c15Start(nil))
 }
 
 func TestVerifC15(t *testing.T) {
